@@ -381,26 +381,72 @@ theorem iterBody_tick_mono (P : Problem α) (dir : Direction D α) (pr : Params 
 
 /-! ### Initialisation -/
 
-theorem initQub_ticks (P : Problem α) (pr : Params α) (f : Nat) (c : Iterate α) (t b : Nat) :
-    (initQub P pr f c t b).2.1 + 2 * b = t + 2 * (initQub P pr f c t b).2.2.1 := by
+theorem initQub_ticks (P : Problem α) (pr : Params α) (stop : Nat → Bool) (f : Nat) (c : Iterate α)
+    (t b : Nat) :
+    (initQub P pr stop f c t b).2.1 + 2 * b = t + 2 * (initQub P pr stop f c t b).2.2.1 := by
   induction f generalizing c t b with
   | zero => simp [initQub]
   | succ f ih =>
     unfold initQub
     split_ifs
+    · simp
     · have := ih (evalPsiHat P pr (evalProxGradStep P { c with gamma := c.gamma / 2, L := c.L * 2 }))
         (t + 2) (b + 1)
       omega
     · simp
 
-theorem initQub_ticks0 (P : Problem α) (pr : Params α) (f : Nat) (c : Iterate α) (t : Nat) :
-    (initQub P pr f c t 0).2.1 = t + 2 * (initQub P pr f c t 0).2.2.1 := by
-  have := initQub_ticks P pr f c t 0; omega
+theorem initQub_ticks0 (P : Problem α) (pr : Params α) (stop : Nat → Bool) (f : Nat) (c : Iterate α)
+    (t : Nat) :
+    (initQub P pr stop f c t 0).2.1 = t + 2 * (initQub P pr stop f c t 0).2.2.1 := by
+  have := initQub_ticks P pr stop f c t 0; omega
+
+/-- **Once the flag is visible the initial step-size loop makes no further call**: if the stop
+    flag is visible when the loop tests its condition, the loop is left without touching anything. -/
+theorem initQub_stop_id (P : Problem α) (pr : Params α) (stop : Nat → Bool) (f : Nat) (c : Iterate α)
+    (t b : Nat) (h : stop t = true) : initQub P pr stop (f + 1) c t b = (c, t, b, false) := by
+  unfold initQub; simp [h]
+
+/-- With a monotone flag that is visible from tick `t₀` on, the initial step-size loop entered at
+    tick `t` is left at tick `≤ max t (t₀ + 1)`: a pass (2 calls) is only started while the flag is
+    invisible (tick `< t₀`). -/
+theorem initQub_tick_bound (P : Problem α) (pr : Params α) (stop : Nat → Bool) (hm : StopMono stop)
+    (t0 : Nat) (h0 : stop t0 = true) (f : Nat) (c : Iterate α) (t b : Nat) :
+    (initQub P pr stop f c t b).2.1 ≤ max t (t0 + 1) := by
+  induction f generalizing c t b with
+  | zero => simp only [initQub]; omega
+  | succ f ih =>
+    unfold initQub
+    by_cases hst : stop t
+    · simp only [hst, if_true]; omega
+    · simp only [hst, Bool.false_eq_true, if_false]
+      have hlt := lt_of_not_stop hm h0 (by simpa using hst)
+      split_ifs
+      · have := ih (evalPsiHat P pr (evalProxGradStep P { c with gamma := c.gamma / 2, L := c.L * 2 }))
+          (t + 2) (b + 1)
+        omega
+      · simp only []; omega
+
+/-- The initial step-size loop is left either because the flag is visible at that tick or because
+    its own condition is false. -/
+theorem initQub_exit (P : Problem α) (pr : Params α) (stop : Nat → Bool) (f : Nat) (c : Iterate α)
+    (t b : Nat) (hf : (initQub P pr stop f c t b).2.2.2 = false)
+    (hs : stop (initQub P pr stop f c t b).2.1 = false) :
+    (decide ((initQub P pr stop f c t b).1.L < pr.Lmax) &&
+      qubViolated pr (initQub P pr stop f c t b).1) = false := by
+  induction f generalizing c t b with
+  | zero => simp [initQub] at hf
+  | succ f ih =>
+    unfold initQub at hf hs ⊢
+    split_ifs at hf hs ⊢ with h1 h2
+    · simp only [] at hs; rw [h1] at hs; exact absurd hs (by decide)
+    · exact ih _ _ _ hf hs
+    · simpa using h2
 
 /-- Calls made before the main loop: `2` (finite-difference Lipschitz estimate) or `1`
     (`ψ, ∇ψ` at `x₀`), `2` for the first proximal-gradient step, `2` per initial step-size backtrack. -/
-theorem initState_ticks (P : Problem α) (d0 : D) (pr : Params α) (x0 gV : Vec α) (gS : α) :
-    match initState P d0 pr x0 gV gS with
+theorem initState_ticks (P : Problem α) (d0 : D) (pr : Params α) (stop : Nat → Bool) (x0 gV : Vec α)
+    (gS : α) :
+    match initState P d0 pr stop x0 gV gS with
     | .inl t => t ≤ 2
     | .inr s => s.tick = (if pr.L0 ≤ 0 then 2 else 1) + 2 + 2 * s.stats.stepsizeBacktracks := by
   unfold initState
